@@ -32,6 +32,15 @@ FIXED = {
  "save a negated And/Or": ("C11","R11.a","writer::Not","Not(And(..)) printed as ~(...), rejected by the loader"),
 }
 OPEN = [
+ {"property":"C19","rule":"R19.a","construct":"src/gotranx::reserved-name-guard",
+  "what":"no reserved-name guard on the load -> generate path: a parameter named dt silently replaces the scheme's time step (explicit_euler with parameter dt=0.5, step 0.1: 0.75 instead of 0.95), t/time/pi are captured likewise, states/values/numpy/parameters break the generated module",
+  "witness":"states(x=1)\\nparameters(dt=0.5)\\ndx_dt = -dt*x  + explicit_euler(states, t, 0.1, parameters)", "why_not_fixed":"needs a new validation (or renaming) feature with a policy decision (raise vs rename, per backend keyword lists); not a minimal repair"},
+ {"property":"C16","rule":"R16.a","construct":"src/gotranx/atoms.py::remove_singularities::sum(exprs)",
+  "what":"k per-singularity conditionals each carry the full expression and are added up: k*expr away from the singular points (x/(exp(x)-1) + (x-1)/(exp(x-1)-1) is doubled at x = 0.5: 2.0415 -> 4.0830)",
+  "witness":"y = x/(exp(x)-1) + (x-1)/(exp(x-1)-1)", "why_not_fixed":"tests/test_python_codegen.py::test_codegen_rhs_singular_ode pins the doubled text (`2 * x / (numpy.exp(x) - 1.0) + 2 * (x - 2) / ...`); the unedited suite must keep passing"},
+ {"property":"C02","rule":"R02.a","construct":"c-printer::Integer::real-literal",
+  "what":"the C printer prints an Integer operand of `/` and an Integer exponent as C int literals (inherited StrPrinter._print_Integer): `y = 1/4` is emitted as `const double y = 1/4;` (== 0), `2**(1/2)` as pow(2, 1/2) (== 1), `(3/2)*x` as (3/2)*x (== x)",
+  "witness":"states(x=1)\\nparameters(a=2)\\ny = 1/4\\nz = 2**(1/2)\\ndx_dt = a*y + z", "why_not_fixed":"printing integers as reals must be contextual (array indices, init values pinned by tests/test_c_codegen.py::test_c_codegen_initial_parameter_values_no_clang_format); not a small patch"},
  {"property":"C17","rule":"R17.a","construct":"src/gotranx/transformer.py::get_unit_and_comment_from_assignment::units.ureg(potential_unit.text)",
   "what":"the text of a trailing comment is parsed *and evaluated* by pint to find out whether it is a unit: `ds_dt = a # 9**9**9` hangs the loader (arbitrary-precision power tower)",
   "witness":"states(s=1)\\nparameters(a=1)\\nds_dt = a # 9**9**9", "why_not_fixed":"needs a unit recogniser that does not evaluate arithmetic; not a small patch"},
